@@ -38,6 +38,24 @@ from ..x_flow import expand_locals
 from ..x_sites import method_calls
 from ..x_peval import UNK, make_resolver, pure_self_methods, peval, try_fold
 
+from ..x_http import norm_func
+
+# private helpers that the rules model by name (sanitisers / summarised effects) and therefore must stay calls
+KEEP_CALLS = {"_format_chunk", "_convert_header_value", "_clear_representation_headers", "_can_keep_alive", "_compressible_type",
+              "_on_write_complete", "_finish_request", "_clear_callbacks"}
+
+
+def F(ck, relpath, qualname):
+    """The anchored function with its private same-file helpers inlined (function splitting is followed, depth 3)."""
+    fi = ck.func(relpath, qualname)
+    try:
+        return norm_func(ck.repo, fi, depth=3, no_inline=KEEP_CALLS)
+    except AnalysisError:
+        raise
+    except Exception as e:  # the normaliser must never turn into a verdict
+        raise AnalysisError("cannot normalise %s: %r" % (qualname, e))
+
+
 TECHNIQUE = "partial evaluation of the transform's CFG over the full valuation space + call-sequence typestate + who-may-write / who-may-call"
 EXPLANATION = (
     "GZipContentEncoding.transform_first_chunk is partially evaluated for all 128 valuations of (gzip accepted, finishing, header presence, "
@@ -64,13 +82,13 @@ def self_writes(fi):
 
 
 def check_first_chunk(ck):
-    fi = ck.func(WEB, GZ + ".transform_first_chunk")
+    fi = F(ck, WEB, GZ + ".transform_first_chunk")
     ps = fi.params()
     if len(ps) != 5:
         raise AnalysisError("transform_first_chunk signature changed: %s" % ps)
     _self, status, hd, chunk, fin = ps
-    tc = ck.func(WEB, GZ + ".transform_chunk")
-    ct = ck.func(WEB, GZ + "._compressible_type")
+    tc = F(ck, WEB, GZ + ".transform_chunk")
+    ct = F(ck, WEB, GZ + "._compressible_type")
     if "_gzipping" in self_writes(tc) or self_writes(ct):
         raise AnalysisError("transform_chunk/_compressible_type store to the transform's state; not modelled")
     try:
@@ -196,7 +214,7 @@ def check_first_chunk(ck):
 
 
 def check_transform_chunk(ck):
-    fi = ck.func(WEB, GZ + ".transform_chunk")
+    fi = F(ck, WEB, GZ + ".transform_chunk")
     ps = fi.params()
     if len(ps) != 3:
         raise AnalysisError("transform_chunk signature changed")
@@ -257,7 +275,7 @@ def check_transform_chunk(ck):
 
 
 def check_flag_sources(ck):
-    init = ck.func(WEB, GZ + ".__init__")
+    init = F(ck, WEB, GZ + ".__init__")
     req = [p for p in init.params() if p != "self"]
     stores = q.stores_to(init.node, FLAG)
     ck.floor("C29.only-when-allowed", len(stores), 1, "initialisation of _gzipping")
@@ -273,7 +291,7 @@ def check_flag_sources(ck):
             continue
         for st in q.stores_to(fi.node, FLAG):
             ck.ob("C29.only-when-allowed", fi, st, False, "only __init__ and transform_first_chunk decide whether to compress")
-    ct = ck.func(WEB, GZ + "._compressible_type")
+    ct = F(ck, WEB, GZ + "._compressible_type")
     p = [x for x in ct.params() if x != "self"]
     rets = [n for n in q.walk_body(ct.node) if isinstance(n, ast.Return)]
     ck.floor("C29.only-when-allowed", len(rets), 1, "returns in _compressible_type")
@@ -285,7 +303,7 @@ def check_flag_sources(ck):
 
 
 def check_application(ck):
-    fl = ck.func(WEB, RH + ".flush")
+    fl = F(ck, WEB, RH + ".flush")
     ps = fl.params()
     if len(ps) < 2:
         raise AnalysisError("flush lost its include_footers parameter")
@@ -345,7 +363,7 @@ def check_application(ck):
         ck.ob("C29.transform-applied", fl, c, a is not None and any(expr_tainted(a, t, (), (".transform_chunk",)) for t in out_later.get(node.id, [])), "the chunk written is the output of the transforms",
               construct="later chunk written is not the transform output")
     # who flushes with the finishing flag
-    fin = ck.func(WEB, RH + ".finish")
+    fin = F(ck, WEB, RH + ".finish")
     n_true = 0
     for fi in ck.repo.module(WEB).funcs.values():
         for c in q.calls(fi.node):
@@ -357,7 +375,7 @@ def check_application(ck):
                 if val is False:
                     continue
                 n_true += 1
-                ck.ob("C29.finishing-flag", fi, c, fi is fin and val is True, "only RequestHandler.finish flushes with the finishing flag set")
+                ck.ob("C29.finishing-flag", fi, c, fi.qualname == fin.qualname and fi.file == fin.file and val is True, "only RequestHandler.finish flushes with the finishing flag set")
     fcalls = call_sites(fin, "self.flush")
     ck.floor("C29.finishing-flag", len(fcalls), 1, "flush calls in finish")
     for _n, c in fcalls:
